@@ -6,9 +6,18 @@ states the type of every parameter (the specialisation); the translator infers t
 and picks the operation of lean/PycsepVerif/PyPrelude.lean / Soft64 / RealOps that numpy / CPython apply at these types.
 Statements: assignment -> `let`, `if` -> `if … then … else …` (assigned variables threaded as a tuple, or the continuation
 duplicated when a branch returns / raises), `return` ends, `raise` -> `Except.error`, `x[mask] = v` on an elementwise value
--> `if mask then v else x`, `for v in <list>` without exits -> `List.foldl`. Conditions that are constant under the
+-> `if mask then v else x`, `for v in <list>` without exits -> `List.foldl`, `with numpy.errstate(...)` -> its body,
+`x = f(…)` with `f` a translated function that can raise -> `match … | .error e => .error e | .ok x => …`,
+`r = EvaluationResult(); r.field = v` (classes named in TARGETS.records) -> one variable per stored field,
+`return None` next to value returns -> `Option` result (`none` / `some v`). Conditions that are constant under the
 specialisation (`tol is None`, `os.name == "nt"`, `issubclass(v.dtype.type, numpy.floating)`) select the live branch; the
 dropped branch is named in the header comment of the definition.
+
+Specialisation keys of a TARGETS entry beyond `params`: `expr_params` (expressions on object parameters that are parameters
+of the definition, e.g. `catalog.spatial_magnitude_counts()`), `opaque` / `opaque_consts` (library functions / constants passed
+as parameters), `ret` (declared result type: finite values embed into `ELL`, `numpy.nan` is `none`), `slice_result` (backward
+slice of an expression), `slice_call` (backward slice of the arguments of the unique call of a function), `records`, `statics`,
+`shapes`, `extended_log`.
 
 Anything else raises Untranslatable(function, lineno, reason): nothing is guessed and no statement is skipped silently.
 Every numpy / stdlib call accepted is in CALLS / METHODS / ATTRS below, with the prelude operation it maps to.
@@ -72,12 +81,18 @@ class Ty:
             return "Int"
         if k == "tuple":
             return " × ".join(_paren(t.lean()) for t in self.item)
+        if k == "option":
+            return f"Option {_paren(self.item.lean())}"
+        if k == "ma":
+            return f"List ({self.item.lean()} × Bool)"
+        if k == "idxarr":
+            return "List Nat"
         raise ValueError(f"type {self} has no Lean representation")
 
     def uses_real(self):
         if self.kind in ("real", "ereal"):
             return True
-        if self.kind == "list":
+        if self.kind in ("list", "option", "ma"):
             return self.item.uses_real()
         if self.kind == "tuple":
             return any(t.uses_real() for t in self.item)
@@ -104,6 +119,7 @@ TIMEDELTA = Ty("timedelta")
 
 
 UNUSED = Ty("unused")
+OBJECT = Ty("object")      # a pyCSEP object parameter, read only through spec["expr_params"]
 
 
 def LIST(t):
@@ -112,6 +128,22 @@ def LIST(t):
 
 def TUPLE(*ts):
     return Ty("tuple", item=tuple(ts))
+
+
+def OPTION(t):
+    return Ty("option", item=t)
+
+
+def MA(t):
+    """numpy.ma.MaskedArray (flat): one element is (data, mask)"""
+    return Ty("ma", item=t)
+
+
+IDXARR = Ty("idxarr")      # an index array (numpy.nonzero(a)[0])
+
+
+class _NeedOptional(Exception):
+    """a live `return None` next to value returns: the function is re-translated with an `Option` result"""
 
 
 class Val:
@@ -125,6 +157,10 @@ class Val:
     @property
     def is_static(self):
         return self.static is not Val.NOSTATIC
+
+
+def _finite_f(v):
+    return v == v and v not in (float("inf"), float("-inf"))
 
 
 def rat_lit(fr):
@@ -148,6 +184,41 @@ CALLS = {
     "numpy.where(c, a, b) (elementwise)": "Py.np_where",
     "numpy.round (f64)": "Py.np_round = Soft64.fround",
     "numpy.arange(start, stop, step) (f64)": "Py.np_arange",
+    "numpy.arange(a, b) (ints)": "Py.range (int64 array a .. b-1)",
+    "numpy.ma.masked_where(cond, a) (list bool, list real)": "Py.ma_masked_where: elements (data, mask)",
+    "numpy.exp / numpy.log / unary minus (masked real array)": "Py.ma_exp / Py.ma_log (domain x <= 0 masked) / Py.ma_neg; "
+    "masked slots keep the input data",
+    "scalar - ma ; ndarray * ma": "Py.ma_scalar_sub / Py.ma_arr_mul: masked slots carry the first operand's data",
+    "ma.data ; ma.ravel() ; ma.shape": "Py.ma_data ; identity ; [Py.size ma]",
+    "numpy.zeros(a.shape) (flat a)": "Py.np_zeros (float64 zeros; real layer if the function is specialised there)",
+    "numpy.nonzero(a)[0] ; y[idx] = c (idx an index array)": "index array ; Py.put",
+    "numpy.unique(numpy.nonzero(a)) (flat a)": "Py.np_unique (ascending distinct values) of the index array",
+    "<object parameter>.<method>() named in TARGETS.expr_params": "a parameter of the definition",
+    "numpy.sqrt(int) ; numpy.power(int, 2)": "RealOps.sqrt of the converted value ; Py.ipow · 2",
+    "a[mask] (mask a boolean array)": "Py.compress",
+    "with numpy.errstate(...):": "the body (errstate only controls warnings)",
+    "nat * ereal ; ereal / real": "Py.enatMul ; Py.edivFin",
+    "real == real": "Py.req (≤ both ways; NaN outside the model)",
+    "numpy.nan returned in an Option position of TARGETS.ret": "none",
+    "numpy.pi / numpy.cos named in TARGETS.opaque_consts / opaque": "opaque constant / function parameter",
+    "<float literal> ** <small int literal> (exact)": "the literal value",
+    "r = <Class>() for a class named in TARGETS.records ; r.f = v ; r.f": "a record object: each stored field is a variable",
+    "x = f(a, …) with f a translated function that can raise": "match … | .error e => error e | .ok x => …",
+    "f(array, …) for f specialised on ONE element of that parameter": "List.map, or Py.mapUniform when f can raise (only if no "
+    "raise of f sits under an element-dependent condition)",
+    "numpy.any(list bool)": "Py.np_any",
+    "a[idx] (idx an integer array)": "List.map (Py.getF a ·) idx (negative indices as in Python; IndexError not modelled)",
+    "a[rows, cols] (a : 2-D float64 as list of rows; two integer index arrays)": "Py.get2",
+    "a.astype(bool) / a.astype(numpy.int64) (list f64)": "x ≠ 0 / Py.truncF per element",
+    "numpy.where(cond) (one argument, flat bool array)": "Py.whereIdx (index array of the True positions)",
+    "a parameter of a callee left to its constant default": "the constant",
+    "d['key'] (d the dict a translated function returns)": "the component of the tuple in key order",
+    "map(f, (a, b)) unpacked ; numpy.concatenate([a, b])": "(f a, f b) ; a ++ b",
+    "numpy.max / numpy.min (list f64)": "Py.np_max / Py.np_min (fold from the first element; empty array: ValueError not modelled)",
+    "numpy.sort(a) (list f64 / list int)": "Py.np_sort (ascending; stable merge sort by ≤)",
+    "numpy.searchsorted(a, v[, side='left'|'right']) (a, v of one dtype)": "Py.searchsorted_left / _right (count of the "
+    "leading elements < v / ≤ v: numpy's binary search result when a is ascending)",
+    "return None next to value returns": "Option result: none / some v",
     "max / min (f64, int)": "Py.fmax / Py.fmin ; Int max / min",
     "len(list)": "Py.size",
     "int(x) (f64 -> int ; nat -> nat)": "Py.truncF ; identity",
@@ -174,12 +245,14 @@ METHODS = {
 }
 ATTRS = {
     "a.size (list)": "Py.size",
+    "a.data (plain float64 array, used as an arithmetic operand)": "identity (the buffer is read back as the same array)",
     "a.shape (list, 1-D)": "[Py.size a]",
     "dt.tzinfo is None": "Py.Datetime.tzIsNone",
     "dt.year .. dt.microsecond": "Py.Datetime.year .. .microsecond (Time.fields)",
     "td.days / td.seconds / td.microseconds": "Py.tdDays / Py.tdSeconds / Py.tdMicroseconds",
     "td.total_seconds()": "Py.tdTotalSeconds",
     "a[i] (list f64, i int, negative allowed)": "Py.getF",
+    "t[k] (t a fixed-size tuple, k a literal)": "the k-th component",
     "a[i] (list real)": "Py.getA",
     "a[::-1]": "List.reverse",
 }
@@ -223,8 +296,12 @@ def dotted(node):
 class Fn:
     """translation of one function under one specialisation"""
 
-    def __init__(self, tr, spec, node, relfile):
+    def __init__(self, tr, spec, node, relfile, optional=False):
         self.tr, self.spec, self.node, self.relfile = tr, spec, node, relfile
+        self.optional = optional        # some live `return None`: the result type is `Option …`
+        self.dict_keys = None           # keys of the dict literal the function returns (as a tuple in key order)
+        self.elem_depth = 0             # > 0 while translating under a condition that depends on one array element
+        self.nonuniform_raise = False   # some raise depends on the element (then array-level calls are not translated)
         self.name = spec["func"]
         self.notes = []
         self.uses_real = False
@@ -271,7 +348,8 @@ class Fn:
             if isinstance(v.lit, float):
                 # a float literal of the real layer stands for the decimal it is written as
                 fr = Fraction(repr(v.lit))
-            s = f"(RealOps.div (RealOps.ofNat {abs(fr.numerator)}) (RealOps.ofNat {fr.denominator}) : α)"
+            num = "RealOps.one" if abs(fr.numerator) == 1 else f"(RealOps.ofNat {abs(fr.numerator)})"
+            s = f"(RealOps.div {num} (RealOps.ofNat {fr.denominator}) : α)"
             return s if fr > 0 else f"(RealOps.neg {s} : α)"
         if k == "nat":
             return f"(RealOps.ofNat {v.code} : α)"
@@ -354,6 +432,9 @@ class Fn:
             if v.ty.kind == "list" and v.ty.item.kind == "real":
                 self.uses_real = True
                 return Val(f"(List.map (fun x_ => RealOps.neg x_) {v.code})", v.ty)
+            if v.ty.kind == "ma" and v.ty.item.kind == "real":
+                self.uses_real = True
+                return Val(f"(Py.ma_neg {v.code})", v.ty)
             self.bad(e, f"unary minus on {v.ty}")
         if isinstance(e.op, (ast.Not, ast.Invert)):
             if v.is_static and isinstance(e.op, ast.Not):
@@ -372,6 +453,10 @@ class Fn:
                 return Val(f"(Py.esubFin {a.code} {self.to_real(b, node)})", Ty("ereal", elem))
             if ka == "ereal" and kb == "nat" and name == "Mult":
                 return Val(f"(Py.emulNat {a.code} {b.code})", Ty("ereal", elem))
+            if ka == "nat" and kb == "ereal" and name == "Mult":
+                return Val(f"(Py.enatMul {a.code} {b.code})", Ty("ereal", elem))
+            if ka == "ereal" and kb in ("real", "nat", "int") and name == "Div":
+                return Val(f"(Py.edivFin {a.code} {self.to_real(b, node)})", Ty("ereal", elem))
             self.bad(node, f"{name} on {a.ty}, {b.ty}")
         if "real" in (ka, kb):
             self.uses_real = True
@@ -383,6 +468,11 @@ class Fn:
             if f is None:
                 self.bad(node, f"{name} in the real layer")
             return Val(f"(RealOps.{f} {self.to_real(a, node)} {self.to_real(b, node)})", Ty("real", elem))
+        if name == "Pow" and ka == "f64" and a.lit is not None and kb == "int" and b.lit is not None and 0 <= b.lit <= 8:
+            val = float(a.lit) ** b.lit     # CPython's float power of two literals; accepted only when exact
+            if not _finite_f(val) or Fraction(val) != Fraction(a.lit) ** b.lit:
+                self.bad(node, "float literal power that is not exact")
+            return Val(rat_lit(Fraction(val)), F64, lit=val)
         if "f64" in (ka, kb):
             f = {"Add": "fadd", "Sub": "fsub", "Mult": "fmul", "Div": "fdiv"}.get(name)
             if f is None:
@@ -431,6 +521,15 @@ class Fn:
     def lifted(self, op, a, b, node):
         """arithmetic with numpy broadcasting over (flat) lists"""
         la, lb = a.ty.kind == "list", b.ty.kind == "list"
+        if "ma" in (a.ty.kind, b.ty.kind):
+            # numpy.ma binary operations: masked slots of the result carry the FIRST operand's data (PyPrelude)
+            name = type(op).__name__
+            self.uses_real = True
+            if b.ty.kind == "ma" and b.ty.item.kind == "real" and name == "Sub" and a.ty.kind in ("real", "int", "nat", "f64"):
+                return Val(f"(Py.ma_scalar_sub {self.to_real(a, node)} {b.code})", b.ty)
+            if b.ty.kind == "ma" and b.ty.item.kind == "real" and name == "Mult" and la and a.ty.item.kind == "real":
+                return Val(f"(Py.ma_arr_mul {a.code} {b.code})", b.ty)
+            self.bad(node, f"{name} on {a.ty}, {b.ty} (masked arrays: only `scalar - ma` and `ndarray * ma`)")
         if not la and not lb:
             return self.arith(op, a, b, node)
         if la and lb:
@@ -478,8 +577,10 @@ class Fn:
             x, y = self.to_real(a, node), self.to_real(b, node)
             code = {"Lt": f"(RealOps.lt {x} {y})", "LtE": f"(RealOps.le {x} {y})", "Gt": f"(RealOps.lt {y} {x})",
                     "GtE": f"(RealOps.le {y} {x})"}.get(name)
+            if code is None and name == "Eq":
+                code = f"(Py.req {x} {y})"
             if code is None:
-                self.bad(node, "equality test in the real layer")
+                self.bad(node, "`!=` in the real layer")
             return Val(code, Ty("bool", elem))
         if "f64" in (ka, kb):
             return Val(f"(decide ({self.to_f64(a, node)} {sym} {self.to_f64(b, node)}))", Ty("bool", elem))
@@ -541,7 +642,10 @@ class Fn:
             self.bad(e, "dict with non-literal keys")
         vs = [self.expr(x, env) for x in e.values]
         self.notes.append(f"line {e.lineno}: dict result as tuple in key order {keys}")
-        return Val("(" + ", ".join(v.code for v in vs) + ")", TUPLE(*[v.ty.with_elem(False) for v in vs]))
+        r = Val("(" + ", ".join(v.code for v in vs) + ")", TUPLE(*[v.ty.with_elem(False) for v in vs]))
+        r.dict_keys = keys
+        self.dict_keys = keys
+        return r
 
     def e_ListComp(self, e, env):
         if len(e.generators) != 1 or e.generators[0].ifs or e.generators[0].is_async:
@@ -557,11 +661,30 @@ class Fn:
 
     def e_Attribute(self, e, env):
         d = dotted(e)
+        ep = self.spec.get("expr_params", {})
+        if d in ep:
+            nm, ty = ep[d]
+            if ty.uses_real():
+                self.uses_real = True
+            return Val(nm, ty)
         st = self.spec.get("statics", {})
         if d in st:
             return Val(None, STR if isinstance(st[d], str) else INT, static=st[d])
         if d in ("datetime.timezone.utc",):
             return Val(None, Ty("utc"), static="utc")
+        if isinstance(e.value, ast.Name) and e.value.id in env and env[e.value.id].ty.kind == "record":
+            key = f"{e.value.id}.{e.attr}"
+            if key not in env:
+                self.bad(e, f"field {key} is read before it is stored")
+            return env[key]
+        oc = self.spec.get("opaque_consts", {})
+        if d in oc:
+            nm, ty = oc[d]
+            if ty.uses_real():
+                self.uses_real = True
+            return Val(nm, ty)
+        if d in ("numpy.nan", "np.nan"):
+            return Val(None, Ty("nan"), static="nan")     # only as a returned value in an Option position (TARGETS.ret)
         if e.attr == "eps" and isinstance(e.value, ast.Call) and dotted(e.value.func) in ("numpy.finfo", "np.finfo") \
                 and len(e.value.args) == 1 and isinstance(e.value.args[0], ast.Attribute) and e.value.args[0].attr == "dtype":
             v = self.expr(e.value.args[0].value, env)
@@ -576,9 +699,19 @@ class Fn:
             sh = self.spec.get("shapes", {})
             if isinstance(e.value, ast.Name) and e.value.id in sh and env.get(e.value.id) is self.param_vals.get(e.value.id):
                 return Val(sh[e.value.id], LIST(NAT))      # the shape of an n-d array parameter is a parameter itself
-            return Val(f"[Py.size {v.code}]", LIST(INT))
-        if v.ty.kind == "list" and a == "data":
-            self.bad(e, ".data of a masked array")
+            r = Val(f"[Py.size {v.code}]", LIST(INT))
+            r.shape1 = f"(Py.size {v.code})"               # shape of a flat array: (n,)
+            return r
+        if v.ty.kind == "ma" and a == "shape":
+            r = Val(f"[Py.size {v.code}]", LIST(INT))
+            r.shape1 = f"(Py.size {v.code})"
+            return r
+        if v.ty.kind == "ma" and a == "data":
+            return Val(f"(Py.ma_data {v.code})", LIST(v.ty.item))
+        if v.ty.kind == "list" and a == "data" and v.ty.item.kind in ("real", "f64"):
+            # ndarray.data is the buffer (memoryview) of a float64 array; as an operand of numpy arithmetic it is read back
+            # (buffer protocol) as the same array
+            return v
         if v.ty.kind == "datetime":
             if a == "tzinfo":
                 return Val(v.code, Ty("tzinfo"))
@@ -591,16 +724,40 @@ class Fn:
     def e_Subscript(self, e, env):
         v = self.expr(e.value, env)
         s = e.slice
+        if v.ty.kind == "tuple" and isinstance(s, ast.Constant) and isinstance(s.value, int) and not isinstance(s.value, bool) \
+                and 0 <= s.value < len(v.ty.item):
+            i, n = s.value, len(v.ty.item)      # t[k] of a fixed-size tuple / point
+            return Val(f"{v.code}" + "".join([".2"] * i) + (".1" if i < n - 1 else ""), v.ty.item[i])
+        if getattr(v, "dict_keys", None) and isinstance(s, ast.Constant) and isinstance(s.value, str):
+            # d['key'] of a dict returned by a translated function (a tuple in key order)
+            if s.value not in v.dict_keys:
+                self.bad(e, f"key {s.value!r} is not one of {v.dict_keys}")
+            i, n = v.dict_keys.index(s.value), len(v.dict_keys)
+            return Val(f"{v.code}" + "".join([".2"] * i) + (".1" if i < n - 1 else ""), v.ty.item[i])
         if isinstance(s, ast.Slice):
             if s.lower is None and s.upper is None and isinstance(s.step, ast.UnaryOp) and isinstance(s.step.op, ast.USub) \
                     and isinstance(s.step.operand, ast.Constant) and s.step.operand.value == 1 and v.ty.kind == "list":
                 return Val(f"(List.reverse {v.code})", v.ty)
             self.bad(e, "slice other than [::-1]")
+        if isinstance(s, ast.Tuple) and len(s.elts) == 2 and v.ty.kind == "list" and v.ty.item.kind == "list" \
+                and v.ty.item.item.kind == "f64":
+            r, c = self.expr(s.elts[0], env), self.expr(s.elts[1], env)
+            if r.ty.kind == "list" and r.ty.item.kind == "int" and c.ty.kind == "list" and c.ty.item.kind == "int":
+                return Val(f"(Py.get2 {v.code} {r.code} {c.code})", LIST(F64))     # a[rows, cols] for two index arrays
+            self.bad(e, f"2-D subscript with {r.ty}, {c.ty}")
         i = self.expr(s, env)
+        if v.ty.kind == "list" and i.ty.kind == "list" and i.ty.item.kind in ("int", "nat") and v.ty.item.kind in ("f64", "int", "nat"):
+            get = "Py.getF" if v.ty.item.kind == "f64" else "Py.getA"
+            ic = self.to_int(Val("i_", i.ty.item), e)
+            return Val(f"(List.map (fun i_ => {get} {v.code} {ic}) {i.code})", v.ty)      # a[idx] for an integer array idx
+        if v.ty.kind == "list" and i.ty.kind == "list" and i.ty.item.kind == "bool":
+            return Val(f"(Py.compress {i.code} {v.code})", v.ty)      # a[mask] for a boolean array mask
         if v.ty.kind == "monthrange" and i.lit == 1:
             return Val(v.code, INT)
-        if v.ty.kind == "list" and i.ty.kind == "idxtuple":
+        if v.ty.kind == "list" and i.ty.kind in ("idxtuple", "idxarr"):
             return Val(f"(Py.gather {v.code} {i.code})", v.ty)
+        if v.ty.kind == "idxtuple" and i.lit == 0:
+            return Val(v.code, IDXARR)          # numpy.nonzero(a)[0] of a flat array
         if v.ty.kind == "list" and i.ty.kind in ("int", "nat"):
             ic = self.to_int(i, e)
             if v.ty.item.kind == "f64":
@@ -620,6 +777,17 @@ class Fn:
         kw = {k.arg: k.value for k in e.keywords}
         A = lambda i: self.expr(args[i], env)
         np_ = lambda *names: fn in [p + n for n in names for p in ("numpy.", "np.")]
+        if fn in self.spec.get("records", ()) and not args and not kw:
+            return Val(None, Ty("record"), static="record")       # a fresh result object: only its stored fields are read
+        # ---- expressions that are parameters of the specialisation (e.g. `catalog.spatial_magnitude_counts()`) ----
+        ep = self.spec.get("expr_params", {})
+        if ep:
+            src = ast.unparse(e)
+            if src in ep:
+                nm, ty = ep[src]
+                if ty.uses_real():
+                    self.uses_real = True
+                return Val(nm, ty)
         # ---- opaque function parameters (e.g. scipy cdf's) ----
         opq = self.spec.get("opaque", {})
         if fn in opq:
@@ -631,6 +799,11 @@ class Fn:
                     self.bad(e, f"opaque {fn}: keyword {k_} other than the fixed {fixed}")
             if len(vs) != len(o["args"]):
                 self.bad(e, f"opaque {fn}: expected {len(o['args'])} positional arguments")
+            if len(vs) == 1 and vs[0].ty.kind == "list" and vs[0].ty.item == o["args"][0] and not kw:
+                # a one-argument opaque function applied to an array: elementwise
+                if o["ret"].uses_real():
+                    self.uses_real = True
+                return Val(f"(List.map (fun x_ => {o['lean']} x_) {vs[0].code})", LIST(o["ret"]))
             codes = [self.coerce(v, t, e) for v, t in zip(vs, o["args"])]
             if o["ret"].uses_real():
                 self.uses_real = True
@@ -662,6 +835,8 @@ class Fn:
             v = A(0)
             if v.ty.kind == "f64":
                 return Val(f"(Py.np_abs {v.code})", v.ty)
+            if v.ty.kind == "list" and v.ty.item.kind == "f64":
+                return Val(f"(List.map (fun x_ => Py.np_abs x_) {v.code})", v.ty)
             if v.ty.kind == "int":
                 return Val(f"(Int.ofNat (Int.natAbs {v.code}))", v.ty)
             self.bad(e, f"abs of {v.ty}")
@@ -675,6 +850,11 @@ class Fn:
             if v.ty.kind == "f64":
                 return Val(f"(Py.np_clip {v.code} {self.to_f64(lo, e)} {self.to_f64(hi, e)})", v.ty)
             self.bad(e, f"clip of {v.ty}")
+        if np_("where") and len(args) == 1 and not kw:
+            c = A(0)
+            if c.ty.kind == "list" and c.ty.item.kind == "bool":
+                return Val(f"(Py.whereIdx {c.code})", Ty("idxtuple"))
+            self.bad(e, f"one-argument where of {c.ty}")
         if np_("where") and len(args) == 3:
             c, a, b = A(0), A(1), A(2)
             if c.ty.kind != "bool":
@@ -689,6 +869,71 @@ class Fn:
             if v.ty.kind == "f64":
                 return Val(f"(Py.np_round {v.code})", v.ty)
             self.bad(e, f"round of {v.ty}")
+        if np_("ma.masked_where") and len(args) == 2 and not kw:
+            c, a = A(0), A(1)
+            if c.ty.kind == "list" and c.ty.item.kind == "bool" and a.ty.kind == "list" and a.ty.item.kind == "real":
+                self.uses_real = True
+                return Val(f"(Py.ma_masked_where {c.code} {a.code})", MA(a.ty.item))
+            self.bad(e, f"masked_where of {c.ty}, {a.ty}")
+        if np_("zeros") and len(args) == 1 and not kw:
+            v = A(0)
+            if getattr(v, "shape1", None) is None:
+                self.bad(e, "numpy.zeros of something other than the shape of a flat array")
+            # float64 zeros: of the real layer when the function is specialised there
+            if any(isinstance(t, Ty) and t.uses_real() for t in self.spec["params"].values()) or \
+                    any(t.uses_real() for _, t in self.spec.get("expr_params", {}).values()):
+                self.uses_real = True
+                return Val(f"(Py.np_zeros {v.shape1} : List α)", LIST(REAL))
+            return Val(f"(List.replicate ({v.shape1}).toNat (0 : Rat))", LIST(F64))
+        if fn == "map" and len(args) == 2 and isinstance(args[1], ast.Tuple) and not kw:
+            # map(f, (a, b, …)), to be unpacked into as many names: the tuple (f(a), f(b), …)
+            vs = [self.expr(ast.copy_location(ast.Call(func=args[0], args=[x], keywords=[]), e), env) for x in args[1].elts]
+            return Val("(" + ", ".join(v.code for v in vs) + ")", TUPLE(*[v.ty.with_elem(False) for v in vs]))
+        if np_("concatenate") and len(args) == 1 and isinstance(args[0], (ast.List, ast.Tuple)) and not kw:
+            vs = [self.expr(x, env) for x in args[0].elts]
+            if vs and all(v.ty.kind == "list" and v.ty == vs[0].ty for v in vs):
+                return Val("(" + " ++ ".join(v.code for v in vs) + ")", vs[0].ty)
+            self.bad(e, "concatenate of something other than flat arrays of one dtype")
+        if np_("max", "min", "amax", "amin") and len(args) == 1 and not kw:
+            v = A(0)
+            which = "max" if fn.split(".")[1] in ("max", "amax") else "min"
+            if v.ty.kind == "list" and v.ty.item.kind == "f64":
+                return Val(f"(Py.np_{which} {v.code})", F64)
+            self.bad(e, f"{which} of {v.ty}")
+        if np_("any") and len(args) == 1 and not kw:
+            v = A(0)
+            if v.ty.kind == "list" and v.ty.item.kind == "bool":
+                return Val(f"(Py.np_any {v.code})", BOOL)
+            self.bad(e, f"any of {v.ty}")
+        if np_("unique") and len(args) == 1 and not kw:
+            v = A(0)
+            if v.ty.kind in ("idxtuple", "idxarr"):
+                return Val(f"(Py.np_unique {v.code})", IDXARR)
+            self.bad(e, f"unique of {v.ty}")
+        if np_("sort") and len(args) == 1 and not kw:
+            v = A(0)
+            if v.ty.kind == "list" and v.ty.item.kind in ("f64", "int"):
+                return Val(f"(Py.np_sort {v.code})", v.ty)
+            self.bad(e, f"sort of {v.ty}")
+        if np_("searchsorted") and len(args) == 2 and set(kw) <= {"side"}:
+            side = "left"
+            if "side" in kw:
+                if not (isinstance(kw["side"], ast.Constant) and kw["side"].value in ("left", "right")):
+                    self.bad(e, "searchsorted with a side that is not the literal 'left' / 'right'")
+                side = kw["side"].value
+            a, v = A(0), A(1)
+            # numpy searches in result_type(a.dtype, v.dtype); translated only where that is the dtype of both
+            if a.ty.kind == "list" and a.ty.item.kind in ("f64", "int"):
+                if v.ty.kind == a.ty.item.kind:
+                    return Val(f"(Py.searchsorted_{side} {a.code} {v.code})", Ty("int", v.ty.elem))
+                if v.ty.kind == "list" and v.ty.item.kind == a.ty.item.kind:
+                    return Val(f"(List.map (fun x_ => Py.searchsorted_{side} {a.code} x_) {v.code})", LIST(INT))
+            self.bad(e, f"searchsorted of {a.ty} with {v.ty} (only an array and a value / array of the same dtype)")
+        if np_("arange") and len(args) == 2 and not kw:
+            a, b = A(0), A(1)
+            if a.ty.kind in ("int", "nat") and b.ty.kind in ("int", "nat"):
+                return Val(f"(Py.range {self.to_int(a, e)} {self.to_int(b, e)})", LIST(INT))
+            self.bad(e, "two-argument arange of non-integers")
         if np_("arange") and len(args) == 3 and not kw:
             a, b, c = A(0), A(1), A(2)
             if "f64" in (a.ty.kind, b.ty.kind, c.ty.kind):
@@ -705,7 +950,7 @@ class Fn:
             self.bad(e, f"{fn} of {a.ty}, {b.ty}")
         if fn == "len" and len(args) == 1:
             v = A(0)
-            if v.ty.kind == "list":
+            if v.ty.kind in ("list", "idxarr", "ma"):
                 return Val(f"(Py.size {v.code})", INT)
             self.bad(e, f"len of {v.ty} (an elementwise parameter has no length here)")
         if fn == "int" and len(args) == 1:
@@ -766,8 +1011,12 @@ class Fn:
             rt = EREAL if ext else REAL
             if v.ty.kind == "real":
                 return Val(one(v.code), rt.with_elem(v.ty.elem))
+            if v.ty.kind in ("int", "nat") and f == "sqrt":
+                return Val(one(self.to_real(v, e)), rt.with_elem(v.ty.elem))     # integer argument: converted to float64
             if v.ty.kind == "list" and v.ty.item.kind == "real":
                 return Val(f"(List.map (fun x_ => {one('x_')}) {v.code})", LIST(rt))
+            if v.ty.kind == "ma" and v.ty.item.kind == "real" and f in ("log", "exp") and not ext:
+                return Val(f"(Py.ma_{f} {v.code})", v.ty)
             self.bad(e, f"{f} of {v.ty}")
         if np_("sum") and len(args) == 1 and not kw:
             v = A(0)
@@ -776,6 +1025,8 @@ class Fn:
             v = A(0)
             if np_("power") and A(1).lit != 2:
                 self.bad(e, "numpy.power with an exponent other than the literal 2")
+            if v.ty.kind in ("int", "nat"):
+                return Val(f"(Py.ipow {self.to_int(v, e)} (2 : Int))", Ty("int", v.ty.elem))
             self.uses_real = True
             if v.ty.kind == "real":
                 return Val(f"(Py.rsq {v.code})", v.ty)
@@ -805,12 +1056,17 @@ class Fn:
         if isinstance(e.func, ast.Attribute):
             m = e.func.attr
             recv = self.expr(e.func.value, env)
+            if m == "astype" and len(args) == 1 and dotted(args[0]) == "bool" and recv.ty.kind == "list" \
+                    and recv.ty.item.kind == "f64":
+                return Val(f"(List.map (fun x_ => decide (x_ ≠ (0 : Rat))) {recv.code})", LIST(BOOL))
             if m == "astype" and len(args) == 1 and dotted(args[0]) in ("numpy.int64", "np.int64", "int"):
+                if recv.ty.kind == "list" and recv.ty.item.kind == "f64":
+                    return Val(f"(List.map (fun x_ => Py.truncF x_) {recv.code})", LIST(INT))
                 if recv.ty.kind == "f64":
                     return Val(f"(Py.truncF {recv.code})", Ty("int", recv.ty.elem))
                 self.bad(e, f"astype(int64) of {recv.ty}")
             if m == "ravel" and not args:
-                if recv.ty.kind == "list" or recv.ty.elem:
+                if recv.ty.kind in ("list", "ma") or recv.ty.elem:
                     return recv
                 self.bad(e, f"ravel of {recv.ty}")
             if m == "sum" and not args and not kw:
@@ -821,6 +1077,28 @@ class Fn:
             if m == "total_seconds" and not args and recv.ty.kind == "timedelta":
                 return Val(f"(Py.tdTotalSeconds {recv.code})", F64)
         self.bad(e, f"call of {fn or ast.dump(e.func)[:60]} is not in the accepted table")
+
+    def embed(self, node, ty, env, at):
+        if ty.kind == "tuple":
+            if not (isinstance(node, ast.Tuple) and len(node.elts) == len(ty.item)):
+                self.bad(at, f"returned value is not a literal tuple of {len(ty.item)} elements")
+            return "(" + ", ".join(self.embed(x, t, env, at) for x, t in zip(node.elts, ty.item)) + ")"
+        v = self.expr(node, env)
+        if ty.kind == "option":
+            if v.ty.kind == "nan":
+                return "none"
+            return f"(some {self.embed_val(v, ty.item, at)})"
+        return self.embed_val(v, ty, at)
+
+    def embed_val(self, v, ty, at):
+        if v.ty.kind == "nan" or (v.is_static and v.code is None):
+            self.bad(at, f"{v.ty} returned where {ty} is declared")
+        if ty.kind == "ereal":
+            self.uses_real = True
+            if v.ty.kind == "ereal":
+                return v.code
+            return f"(ELL.fin {self.to_real(v, at)})"
+        return self.coerce(v, ty, at)
 
     def sum_of(self, v, e):
         if v.ty.kind == "list" and v.ty.item.kind == "real":
@@ -857,12 +1135,29 @@ class Fn:
                 for t in tg:
                     while isinstance(t, ast.Subscript):
                         t = t.value
+                    if isinstance(t, ast.Attribute) and isinstance(t.value, ast.Name):
+                        if f"{t.value.id}.{t.attr}" not in out:
+                            out.append(f"{t.value.id}.{t.attr}")    # a field of a record object (`result.quantile = …`)
+                        continue
                     for nm in ([t] if isinstance(t, ast.Name) else (t.elts if isinstance(t, ast.Tuple) else [])):
                         if isinstance(nm, ast.Name) and nm.id not in out:
                             out.append(nm.id)
         return out
 
+    @staticmethod
+    def reads(node):
+        """names read by a node; a field `name.attr` of a plain name counts as `name.attr` (and as `name`)"""
+        out = set()
+        for n in ast.walk(node):
+            if isinstance(n, ast.Name) and isinstance(n.ctx, ast.Load):
+                out.add(n.id)
+            if isinstance(n, ast.Attribute) and isinstance(n.ctx, ast.Load) and isinstance(n.value, ast.Name):
+                out.add(f"{n.value.id}.{n.attr}")
+        return out
+
     def ret(self, code):
+        if self.optional:
+            code = f"(some {code})"
         return f"(Except.ok {code})" if self.raises else code
 
     def block(self, stmts, env, k, ind):
@@ -879,12 +1174,25 @@ class Fn:
         if isinstance(s, ast.Return):
             if s.value is None:
                 self.bad(s, "bare return")
+            if "ret" in self.spec:
+                # declared result type (TARGETS.ret): every returned value is embedded into it (finite -> ELL.fin,
+                # numpy.nan in an Option position -> none, a value there -> some)
+                self.ret_ty = self.spec["ret"]
+                return pad + self.ret(self.embed(s.value, self.spec["ret"], env, s))
             v = self.expr(s.value, env)
+            if v.ty.kind == "none":
+                # `return None` in live code: Optional result (`none`); the value returns become `some …`
+                if not self.optional:
+                    raise _NeedOptional()
+                return pad + (f"(Except.ok none)" if self.raises else "none")
             if v.is_static and v.code is None:
                 self.bad(s, f"return of a {v.ty} constant")
-            if v.ty.kind not in ("f64", "int", "nat", "bool", "real", "ereal", "list", "tuple", "datetime", "timedelta"):
+            if v.ty.kind not in ("f64", "int", "nat", "bool", "real", "ereal", "list", "tuple", "datetime", "timedelta",
+                                 "option"):
                 self.bad(s, f"return of {v.ty}")
             rt = v.ty.with_elem(False)
+            if self.optional and rt.kind == "option":
+                self.bad(s, "return of an Optional value from a function that also returns None itself")
             if self.ret_ty is None:
                 self.ret_ty = rt
             elif self.ret_ty != rt:
@@ -895,11 +1203,27 @@ class Fn:
         if isinstance(s, ast.Raise):
             exc = dotted(s.exc.func) if isinstance(s.exc, ast.Call) else dotted(s.exc) if s.exc is not None else None
             kind = {"ValueError": "valueError", "IndexError": "indexError", "AssertionError": "assertionError"}.get(exc, "other")
+            if self.elem_depth > 0:
+                self.nonuniform_raise = True
             return f"{pad}(Except.error Py.Err.{kind})"
         if isinstance(s, ast.Assign):
             if len(s.targets) != 1:
                 self.bad(s, "multiple assignment targets")
             t = s.targets[0]
+            if isinstance(s.value, ast.Call) and isinstance(t, ast.Name):
+                cal = self.tr.callee(self.relfile, dotted(s.value.func))
+                if cal is not None and (self.tr.results.get(cal["lean"]) or {}).get("raises", False):
+                    # x = f(…) with f a translated function that can raise: the exception propagates
+                    if not self.raises:
+                        self.bad(s, "call of a raising function in a definition declared not to raise")
+                    vs = [self.expr(a_, env) for a_ in s.value.args]
+                    kw_ = {k_.arg: k_.value for k_ in s.value.keywords}
+                    v = self.tr.call(self, cal, vs, kw_, s.value, env, allow_raise=True)
+                    tmp = self.fresh("r")
+                    env2 = dict(env)
+                    env2[t.id] = Val(mangle(t.id), v.ty)
+                    return (f"{pad}match {v.code} with\n{pad}| .error e_ => (Except.error e_)\n{pad}| .ok {tmp} =>\n"
+                            f"{pad}  let {mangle(t.id)} := {tmp};\n" + self.block(rest, env2, k, ind + 1))
             v = self.expr(s.value, env)
             if isinstance(t, ast.Name):
                 return self.bind(t.id, v, env, go, pad, s)
@@ -914,6 +1238,16 @@ class Fn:
                     env2[x.id] = Val(mangle(x.id), v.ty.item[i])
                     out += f"{pad}let {mangle(x.id)} := {proj};\n"
                 return out + self.block(rest, env2, k, ind)
+            if isinstance(t, ast.Attribute) and isinstance(t.value, ast.Name) and t.value.id in env \
+                    and env[t.value.id].ty.kind == "record":
+                # a field of a record object: a variable named `obj.field`
+                key = f"{t.value.id}.{t.attr}"
+                if v.is_static and v.code is None:
+                    self.bad(s, f"store of a {v.ty} constant into {key}")
+                nm = mangle(f"{t.value.id}_{t.attr}")
+                env2 = dict(env)
+                env2[key] = Val(nm, v.ty, lit=v.lit)
+                return f"{pad}let {nm} := {v.code};\n" + self.block(rest, env2, k, ind)
             if isinstance(t, ast.Subscript) and isinstance(t.value, ast.Name):
                 # x[mask] = v on an elementwise value: if mask then v else x
                 name = t.value.id
@@ -921,6 +1255,10 @@ class Fn:
                     self.bad(s, f"masked assignment to unknown {name}")
                 cur = env[name]
                 mask = self.expr(t.slice, env)
+                if cur.ty.kind == "list" and mask.ty.kind in ("idxarr", "idxtuple") and v.ty.kind != "list":
+                    # a[idx] = scalar for an index array
+                    newv = self.coerce(v, cur.ty.item, s)
+                    return self.bind(name, Val(f"(Py.put {cur.code} {mask.code} {newv})", cur.ty), env, go, pad, s)
                 if not (cur.ty.elem and mask.ty.kind == "bool" and mask.ty.elem):
                     self.bad(s, f"subscript assignment {name}[{mask.ty}] on {cur.ty}: only boolean masks on elementwise values")
                 newv = self.coerce(v, cur.ty, s)
@@ -942,8 +1280,10 @@ class Fn:
                 return self.block(list(live) + rest, env, k, ind)
             cc = self.to_bool(c, s)
             if self.has_exit(s.body) or self.has_exit(s.orelse):
+                self.elem_depth += 1 if c.ty.elem else 0
                 a = self.block(list(s.body) + rest, dict(env), k, ind + 1)
                 b = self.block(list(s.orelse) + rest, dict(env), k, ind + 1)
+                self.elem_depth -= 1 if c.ty.elem else 0
                 return f"{pad}if {cc} then\n{a}\n{pad}else\n{b}"
             na, nb = self.assigned(list(s.body)), self.assigned(list(s.orelse))
             # a name assigned in one branch only and undefined before is local to that branch (any later use is an
@@ -994,6 +1334,12 @@ class Fn:
                     env2[nm] = Val(mangle(nm), tys[nm])
                     out += f"{pad}let {mangle(nm)} := {proj};\n"
             return out + self.block(rest, env2, k, ind)
+        if isinstance(s, ast.With):
+            for it in s.items:
+                if not (isinstance(it.context_expr, ast.Call) and dotted(it.context_expr.func) in ("numpy.errstate", "np.errstate")
+                        and it.optional_vars is None):
+                    self.bad(s, "with statement other than numpy.errstate(...) (which only controls warnings)")
+            return self.block(list(s.body) + rest, env, k, ind)
         if isinstance(s, ast.For):
             if s.orelse or self.has_exit(s.body) or not isinstance(s.target, ast.Name) or \
                     any(isinstance(n, (ast.Break, ast.Continue)) for x in s.body for n in ast.walk(x)):
@@ -1023,7 +1369,7 @@ class Fn:
             env2 = dict(env)
             env2[name] = v
             return go(env2)
-        if v.ty.kind == "idxtuple":
+        if v.ty.kind in ("idxtuple", "idxarr"):
             env2 = dict(env)
             env2[name] = Val(mangle(name), v.ty)
             return f"{pad}let {mangle(name)} := {v.code};\n" + go(env2)
@@ -1032,6 +1378,8 @@ class Fn:
         env2 = dict(env)
         # a literal keeps its literal-ness (so that later mixed arithmetic converts it exactly)
         env2[name] = Val(mangle(name), v.ty, lit=v.lit)
+        if getattr(v, "dict_keys", None):
+            env2[name].dict_keys = v.dict_keys
         return f"{pad}let {mangle(name)} := {v.code};\n" + go(env2)
 
     # ---------------------------------------------------------------- whole function
@@ -1052,14 +1400,17 @@ class Fn:
             t = params[a]
             if isinstance(t, dict):   # static value
                 v = t["static"]
-                env[a] = Val(None, NONE if v is None else (BOOL if isinstance(v, bool) else STR), static=v)
+                env[a] = Val(None, NONE if v is None else (BOOL if isinstance(v, bool) else
+                                                           Ty("statictuple") if isinstance(v, tuple) else STR), static=v)
                 if isinstance(v, bool):
                     env[a] = Val("true" if v else "false", BOOL, static=v)
                 continue
             if t.kind == "none":
                 env[a] = Val(None, NONE, static=None)
                 continue
-            if t.kind == "unused":      # not read by the sliced statements (any use stops the translation)
+            if t.kind in ("unused", "object"):
+                # unused: not read by the sliced statements; object: only read through the expressions of
+                # spec["expr_params"] (any other use stops the translation)
                 env[a] = Val(f"<{a}>", t)
                 continue
             env[a] = Val(mangle(a), t)
@@ -1067,12 +1418,33 @@ class Fn:
             lean_params.append((mangle(a), t))
             if a in spec.get("shapes", {}):
                 lean_params.append((spec["shapes"][a], LIST(NAT)))
+        for src_, (nm_, ty_) in spec.get("opaque_consts", {}).items():
+            lean_params.insert(0, (nm_, ty_))
+            self.notes.append(f"`{src_}` is the opaque constant parameter `{nm_}` : {ty_}")
+        for src_, (nm_, ty_) in spec.get("expr_params", {}).items():
+            lean_params.append((nm_, ty_))
+            self.notes.append(f"`{src_}` is the parameter `{nm_}` : {ty_}")
         self.notes.extend(getattr(node, "_opaque_notes", []))
         body = list(node.body)
+        if "slice_call" in spec:
+            # the result is the tuple of the positional arguments of the (unique) call of the named function: independent
+            # of the names of the locals that are passed
+            calls = [n for st_ in body for n in ast.walk(st_) if isinstance(n, ast.Call) and dotted(n.func) == spec["slice_call"]]
+            if len(calls) != 1 or calls[0].keywords:
+                self.bad(node, f"expected exactly one positional call of {spec['slice_call']}")
+            spec = dict(spec, slice_result="(" + ", ".join(ast.unparse(a) for a in calls[0].args) + ("," if len(calls[0].args) == 1 else "") + ")")
+            self.spec = spec
+            self.notes.append(f"result: the arguments of the call `{ast.unparse(calls[0])}`")
         if "slice_result" in spec:
             body = self.slice(body, spec["slice_result"])
             self.notes.append("slicing assumes that the statements left out do not mutate the kept arrays in place")
-        self.raises = any(isinstance(n, ast.Raise) for s in body for n in ast.walk(s)) and spec.get("raises", True)
+        def calls_raising(n):
+            if not isinstance(n, ast.Call):
+                return False
+            cal = self.tr.callee(self.relfile, dotted(n.func))
+            return cal is not None and (self.tr.results.get(cal["lean"]) or {}).get("raises", False)
+        self.raises = any(isinstance(n, ast.Raise) or calls_raising(n) for s in body for n in ast.walk(s)) \
+            and spec.get("raises", True)
 
         def k_end(env_end):
             if "slice_result" in spec:
@@ -1089,6 +1461,11 @@ class Fn:
             if nm not in seen:
                 seen.add(nm)
                 opq_params.append(f"({nm} : {sig})")
+        if self.optional:
+            if self.ret_ty is None:
+                self.bad(node, "the function returns None only")
+            self.ret_ty = OPTION(self.ret_ty)
+            self.notes.append("Optional result: `return None` is `none`, `return v` is `some v`")
         rt = self.ret_ty.lean()
         if self.raises:
             rt = f"Except Py.Err {_paren(rt)}"
@@ -1113,7 +1490,7 @@ class Fn:
     def slice(self, body, result_expr):
         """backward slice: keep the top-level statements the result expression depends on (through the variables they
         assign); the statements left out are listed in the header (they cannot influence the result)"""
-        need = {n.id for n in ast.walk(ast.parse(result_expr, mode="eval")) if isinstance(n, ast.Name)}
+        need = self.reads(ast.parse(result_expr, mode="eval"))
         keep = [False] * len(body)
         for i in range(len(body) - 1, -1, -1):
             s = body[i]
@@ -1125,7 +1502,7 @@ class Fn:
                 if not isinstance(s, (ast.If, ast.For, ast.AugAssign)) and not any(
                         isinstance(n, ast.Subscript) and isinstance(n.ctx, ast.Store) for n in ast.walk(s)):
                     need -= asg
-                need |= {n.id for n in ast.walk(s) if isinstance(n, ast.Name) and isinstance(n.ctx, ast.Load)}
+                need |= self.reads(s)
         # a statement that is left out must not be able to change a kept variable through a call with side effects:
         # left-out statements are only assignments / loops / ifs / expression statements; list them
         for i, s in enumerate(body):
@@ -1147,6 +1524,21 @@ TARGETS = [
          params={"start": F64, "end": F64, "h": F64},
          opaque={"num_decimals": dict(lean="num_decimals", sig="Rat → Int", args=[F64], ret=INT)},
          local_defs_opaque=["num_decimals"]),
+    # float64 data and edges; a single edge (IndexError at `bin_edges[1]`) is outside the specialisation
+    dict(file="csep/utils/calc.py", func="discretize", lean="discretize", prop="C02", also=[],
+         params=dict(data=LIST(F64), bin_edges=LIST(F64), right_continuous=BOOL)),
+    # C01: one polygon's vertices (origin_point an (x, y) pair of float64; tol passed explicitly, default numpy.finfo(float).eps)
+    dict(file="csep/core/regions.py", func="compute_vertex", lean="compute_vertex", prop="C01", also=[],
+         params=dict(origin_point=TUPLE(F64, F64), dh=F64, tol=F64)),
+    # C01: methods of CartesianGrid2D; `self` is read only through the listed attributes (float64 arrays)
+    dict(file="csep/core/regions.py", func="CartesianGrid2D.get_index_of", lean="get_index_of", prop="C01", also=[],
+         params=dict(self=OBJECT, lons=LIST(F64), lats=LIST(F64)),
+         expr_params={"self.xs": ("xs", LIST(F64)), "self.ys": ("ys", LIST(F64)),
+                      "self.bbox_mask": ("bbox_mask", LIST(LIST(F64))), "self.idx_map": ("idx_map", LIST(LIST(F64)))}),
+    dict(file="csep/core/regions.py", func="CartesianGrid2D.get_masked", lean="get_masked", prop="C01", also=[],
+         params=dict(self=OBJECT, lons=LIST(F64), lats=LIST(F64)),
+         expr_params={"self.xs": ("xs", LIST(F64)), "self.ys": ("ys", LIST(F64)),
+                      "self.bbox_mask": ("bbox_mask", LIST(LIST(F64)))}),
     dict(file="csep/utils/time_utils.py", func="datetime_to_utc_epoch", lean="datetime_to_utc_epoch", prop="C15",
          also=["C14", "C04"], params=dict(dt=DATETIME)),
     dict(file="csep/utils/time_utils.py", func="epoch_time_to_utc_datetime", lean="epoch_time_to_utc_datetime", prop="C15",
@@ -1160,14 +1552,96 @@ TARGETS = [
          also=[], params=dict(fore_cnt=REAL, obs_cnt=NAT, variance=REAL, epsilon=REAL),
          opaque={"scipy.stats.nbinom.cdf": dict(lean="nbinom_cdf", sig="α → α → α → α", args=[REAL, REAL, REAL], ret=REAL,
                                                 fixed_kw={"loc": 0})}),
+    # the public gridded N-tests: backward slice of what is stored in the result (`quantile`, `observed_statistic`, the
+    # forecast count); the two objects are read only through `.event_count`
+    dict(file="csep/core/poisson_evaluations.py", func="number_test", lean="number_test", prop="C07", also=[],
+         slice_result="(result.quantile, result.observed_statistic, fore_cnt)", records=("EvaluationResult",),
+         params=dict(gridded_forecast=OBJECT, observed_catalog=OBJECT),
+         expr_params={"gridded_forecast.event_count": ("fore_cnt'", REAL), "observed_catalog.event_count": ("obs_cnt'", NAT)},
+         opaque={"scipy.stats.poisson.cdf": dict(lean="poisson_cdf", sig="α → α → α", args=[REAL, REAL], ret=REAL)}),
+    dict(file="csep/core/binomial_evaluations.py", func="negative_binomial_number_test", lean="negative_binomial_number_test",
+         prop="C07", also=[], slice_result="(result.quantile, result.observed_statistic, fore_cnt)", records=("EvaluationResult",),
+         params=dict(gridded_forecast=OBJECT, observed_catalog=OBJECT, variance=REAL),
+         expr_params={"gridded_forecast.event_count": ("fore_cnt'", REAL), "observed_catalog.event_count": ("obs_cnt'", NAT)},
+         opaque={"scipy.stats.nbinom.cdf": dict(lean="nbinom_cdf", sig="α → α → α → α", args=[REAL, REAL, REAL], ret=REAL,
+                                                fixed_kw={"loc": 0})}),
     dict(file="csep/core/poisson_evaluations.py", func="_t_test_ndarray", lean="t_test_ndarray", prop="C08", also=[],
          params=dict(target_event_rates1=LIST(REAL), target_event_rates2=LIST(REAL), n_obs=REAL, n_f1=REAL, n_f2=REAL,
                      alpha=REAL),
+         opaque={"scipy.stats.t.ppf": dict(lean="t_ppf", sig="α → α → α", args=[REAL, REAL], ret=REAL)}),
+    # the public paired T-test: the three objects are read only through target_event_rates(...) and .event_count
+    dict(file="csep/core/poisson_evaluations.py", func="paired_t_test", lean="paired_t_test", prop="C08", also=[],
+         slice_result="(result.test_distribution, result.observed_statistic, result.quantile)", records=("EvaluationResult",),
+         params=dict(forecast=OBJECT, benchmark_forecast=OBJECT, observed_catalog=OBJECT, alpha=REAL, scale=UNUSED),
+         expr_params={"forecast.target_event_rates(observed_catalog, scale=scale)": ("ter1", TUPLE(LIST(REAL), REAL)),
+                      "benchmark_forecast.target_event_rates(observed_catalog, scale=scale)": ("ter2", TUPLE(LIST(REAL), REAL)),
+                      "observed_catalog.event_count": ("n_obs", NAT)},
+         opaque={"scipy.stats.t.ppf": dict(lean="t_ppf", sig="α → α → α", args=[REAL, REAL], ret=REAL)}),
+    # the public W-test up to the call of _w_test_ndarray: backward slice of its two arguments (float64; numpy.log opaque)
+    dict(file="csep/core/poisson_evaluations.py", func="w_test", lean="w_test_inputs", prop="C08", also=[],
+         slice_call="_w_test_ndarray",
+         params=dict(gridded_forecast1=OBJECT, gridded_forecast2=OBJECT, observed_catalog=OBJECT, scale=UNUSED),
+         expr_params={"gridded_forecast1.target_event_rates(observed_catalog, scale=scale)": ("ter1", TUPLE(LIST(F64), F64)),
+                      "gridded_forecast2.target_event_rates(observed_catalog, scale=scale)": ("ter2", TUPLE(LIST(F64), F64)),
+                      "observed_catalog.event_count": ("n_obs", NAT),
+                      "gridded_forecast1.event_count": ("n1", F64), "gridded_forecast2.event_count": ("n2", F64)},
+         opaque={"numpy.log": dict(lean="np_log", sig="Rat → Rat", args=[F64], ret=F64)}),
+    # the binary T-test core: `catalog` is read only through `catalog.spatial_magnitude_counts()` (a count array parameter)
+    dict(file="csep/core/binomial_evaluations.py", func="matrix_binary_t_test", lean="matrix_binary_t_test", prop="C08",
+         also=[], params=dict(target_event_rates1=LIST(REAL), target_event_rates2=LIST(REAL), n_obs=REAL, n_f1=REAL, n_f2=REAL,
+                              catalog=OBJECT, alpha=REAL),
+         expr_params={"catalog.spatial_magnitude_counts()": ("counts", LIST(NAT))},
+         opaque={"scipy.stats.t.ppf": dict(lean="t_ppf", sig="α → α → α", args=[REAL, REAL], ret=REAL)}),
+    dict(file="csep/core/binomial_evaluations.py", func="binary_paired_t_test", lean="binary_paired_t_test", prop="C08", also=[],
+         slice_result="(result.test_distribution, result.observed_statistic, result.quantile)", records=("EvaluationResult",),
+         params=dict(forecast=OBJECT, benchmark_forecast=OBJECT, observed_catalog=OBJECT, alpha=REAL, scale=UNUSED),
+         expr_params={"forecast.target_event_rates(observed_catalog, scale=scale)": ("ter1", TUPLE(LIST(REAL), REAL)),
+                      "benchmark_forecast.target_event_rates(observed_catalog, scale=scale)": ("ter2", TUPLE(LIST(REAL), REAL)),
+                      "forecast.data": ("data1", LIST(REAL)), "benchmark_forecast.data": ("data2", LIST(REAL)),
+                      "observed_catalog.spatial_magnitude_counts()": ("counts", LIST(NAT)),
+                      "observed_catalog.event_count": ("n_obs", NAT)},
          opaque={"scipy.stats.t.ppf": dict(lean="t_ppf", sig="α → α → α", args=[REAL, REAL], ret=REAL)}),
     dict(file="csep/core/brier_evaluations.py", func="_brier_score_ndarray", lean="brier_score_ndarray", prop="C16", also=[],
          params=dict(forecast=LIST(REAL), observations=LIST(NAT)), shapes={"observations": "dims"}),
     dict(file="csep/utils/stats.py", func="poisson_joint_log_likelihood_ndarray", lean="poisson_joint_log_likelihood_ndarray",
          prop="C05", also=[], params=dict(target_event_log_rates=LIST(EREAL), target_observations=LIST(NAT), n_fore=REAL)),
+    dict(file="csep/core/binomial_evaluations.py", func="binary_joint_log_likelihood_ndarray",
+         lean="binary_joint_log_likelihood_ndarray", prop="C16", also=[],
+         params=dict(forecast=LIST(REAL), catalog=LIST(NAT))),
+    dict(file="csep/utils/stats.py", func="min_or_none", lean="min_or_none", prop="C09", also=[], params=dict(x=LIST(F64))),
+    dict(file="csep/utils/stats.py", func="max_or_none", lean="max_or_none", prop="C09", also=[], params=dict(x=LIST(F64))),
+    dict(file="csep/utils/stats.py", func="sup_dist", lean="sup_dist", prop="C09", also=[],
+         params=dict(cdf1=LIST(F64), cdf2=LIST(F64))),
+    dict(file="csep/utils/stats.py", func="sup_dist_na", lean="sup_dist_na", prop="C09", also=[],
+         params=dict(data1=LIST(F64), data2=LIST(F64))),
+    # C10: counts as naturals, rates in the real layer, log 0 = -inf explicit; result (likelihood, likelihood_norm | nan)
+    dict(file="csep/utils/calc.py", func="_compute_likelihood", lean="compute_likelihood", prop="C10", also=[],
+         extended_log=True, ret=TUPLE(EREAL, OPTION(EREAL)),
+         params=dict(gridded_data=LIST(NAT), apprx_rate_density=LIST(REAL), expected_cond_count=REAL, n_obs=NAT)),
+    # C17: real layer; numpy.pi and numpy.cos are parameters (the hand model's GeoOps record carries them)
+    dict(file="csep/core/regions.py", func="geographical_area_from_bounds", lean="geographical_area_from_bounds", prop="C17",
+         also=[], ret=REAL, params=dict(lon1=REAL, lat1=REAL, lon2=REAL, lat2=REAL),
+         opaque_consts={"numpy.pi": ("pi", REAL)},
+         opaque={"numpy.cos": dict(lean="cos", sig="α → α", args=[REAL], ret=REAL)}),
+    dict(file="csep/utils/stats.py", func="cumulative_square_diff", lean="cumulative_square_diff", prop="C10", also=[],
+         params=dict(cdf1=LIST(REAL), cdf2=LIST(REAL))),
+    # per-cell likelihood maps: the two objects are read only through `.event_count` and `.spatial_counts()`
+    dict(file="csep/core/poisson_evaluations.py", func="binary_spatial_likelihood", lean="binary_spatial_likelihood", prop="C16",
+         also=[], params=dict(forecast=OBJECT, catalog=OBJECT),
+         expr_params={"catalog.event_count": ("n_cat", NAT), "forecast.event_count": ("n_fore", REAL),
+                      "forecast.spatial_counts()": ("fore_sc", LIST(REAL)), "catalog.spatial_counts()": ("cat_sc", LIST(NAT))}),
+    dict(file="csep/core/poisson_evaluations.py", func="poisson_spatial_likelihood", lean="poisson_spatial_likelihood", prop="C05",
+         also=[], params=dict(forecast=OBJECT, catalog=OBJECT),
+         expr_params={"catalog.event_count": ("n_cat", NAT), "forecast.event_count": ("n_fore", REAL),
+                      "forecast.spatial_counts()": ("fore_sc", LIST(REAL)), "catalog.spatial_counts()": ("cat_sc", LIST(NAT))}),
+    # C09: float64 sample, float64 query, `cdf` not passed (the precomputed-ecdf argument is only used by binned_ecdf)
+    dict(file="csep/utils/stats.py", func="ecdf", lean="ecdf", prop="C09", also=[], params=dict(x=LIST(F64))),
+    dict(file="csep/utils/stats.py", func="greater_equal_ecdf", lean="greater_equal_ecdf", prop="C09", also=[],
+         params=dict(x=LIST(F64), val=F64, cdf={"static": ()})),
+    dict(file="csep/utils/stats.py", func="less_equal_ecdf", lean="less_equal_ecdf", prop="C09", also=[],
+         params=dict(x=LIST(F64), val=F64, cdf={"static": ()})),
+    dict(file="csep/utils/stats.py", func="get_quantiles", lean="get_quantiles", prop="C09", also=[],
+         params=dict(sim_counts=LIST(F64), obs_count=F64)),
     # the observed statistic of _poisson_likelihood_test: backward slice of `obs_ll` (simulation loop, seed, weights left out)
     dict(file="csep/core/poisson_evaluations.py", func="_poisson_likelihood_test", lean="poisson_likelihood_stat", prop="C05",
          also=[], slice_result="obs_ll", extended_log=True,
@@ -1235,24 +1709,98 @@ class Translator:
                 return t
         return None
 
-    def call(self, caller, spec, vals, kw, node, env):
+    def call(self, caller, spec, vals, kw, node, env, allow_raise=False):
         res = self.results.get(spec["lean"])
         if res is None or res["status"] != "ok":
             caller.bad(node, f"call of {spec['func']}, which is not translated ({(res or {}).get('reason', 'later in TARGETS')})")
-        if res["raises"]:
-            caller.bad(node, f"call of {spec['func']}, which can raise")
+        if res["raises"] and not allow_raise:
+            caller.bad(node, f"call of {spec['func']}, which can raise, inside an expression (only `x = f(…)` statements)")
         ps = [(a, t) for a, t in spec["params"].items() if not isinstance(t, dict) and t.kind != "none"]
-        if kw or len(vals) != len(ps):
+        # keyword arguments name parameters of the callee (in any order); statically fixed parameters must be given the
+        # value they are fixed to
+        vals = list(vals)
+        if len(vals) > len(ps):
+            caller.bad(node, f"call of {spec['func']} with other arguments than its specialisation")
+        byname = dict(zip([a for a, _ in ps], vals))
+        for k_, node_ in kw.items():
+            t_ = spec["params"].get(k_)
+            if t_ is None or k_ in byname:
+                caller.bad(node, f"call of {spec['func']}: unexpected keyword {k_}")
+            if isinstance(t_, dict):
+                if not (isinstance(node_, ast.Constant) and node_.value == t_["static"]):
+                    caller.bad(node, f"call of {spec['func']}: keyword {k_} is fixed to {t_['static']!r} in its specialisation")
+                continue
+            byname[k_] = caller.expr(node_, env)
+        missing = [a for a, _ in ps if a not in byname]
+        if missing:
+            # parameters left to their Python default (a bool / int / float constant of the callee's signature)
+            cnode = self.find(spec["file"], spec["func"])
+            names = [a_.arg for a_ in cnode.args.args]
+            dfl = dict(zip(names[len(names) - len(cnode.args.defaults):], cnode.args.defaults))
+            for a in missing:
+                d_ = dfl.get(a)
+                if not (isinstance(d_, ast.Constant) and isinstance(d_.value, (bool, int, float))):
+                    caller.bad(node, f"call of {spec['func']}: parameter {a} is not passed and has no constant default")
+                byname[a] = caller.expr(d_, env)
+        if set(byname) != {a for a, _ in ps}:
             caller.bad(node, f"call of {spec['func']} with other arguments than its specialisation")
         codes = []
-        for v, (a, t) in zip(vals, ps):
+        mine = {o["lean"] for o in caller.spec.get("opaque", {}).values()}
+        for o in spec.get("opaque", {}).values():
+            if o["lean"] not in mine:
+                caller.bad(node, f"call of {spec['func']}: its opaque parameter {o['lean']} is not a parameter of the caller")
+            if o["lean"] not in codes:
+                codes.append(o["lean"])
+        arr = None      # array-level call of a target specialised for ONE element of its array parameter
+        objmap = {}     # object parameter of the callee -> object parameter of the caller that is passed for it
+        for a, t in ps:
+            v = byname[a]
+            if t.kind == "unused":
+                continue
+            if t.kind == "object":
+                if v.ty.kind != "object":
+                    caller.bad(node, f"call of {spec['func']}: argument {a} must be one of the caller's object parameters")
+                objmap[a] = v.code[1:-1]
+                continue
+            if t.elem and v.ty.kind == "list" and v.ty.item == t:
+                if arr is not None:
+                    caller.bad(node, f"call of {spec['func']} with two array arguments for elementwise parameters")
+                arr = v
+                codes.append("x_")
+                continue
             if v.ty != t:
+                if v.lit is not None and t.kind in ("real", "f64"):
+                    codes.append(caller.coerce(v, t, node))     # a literal is converted exactly
+                    continue
+                if v.ty.kind in ("nat", "int") and t.kind == "real" and not t.elem:
+                    codes.append(caller.to_real(v, node))       # a Python int where the callee computes in floats
+                    continue
                 caller.bad(node, f"call of {spec['func']}: argument {a} has type {v.ty}, specialised for {t}")
             codes.append(v.code)
+        # what the callee reads through its object parameters must be a parameter of the caller under the same expression
+        for src_, (nm_, ty_) in spec.get("expr_params", {}).items():
+            tree_ = ast.parse(src_, mode="eval")
+            for n_ in ast.walk(tree_):
+                if isinstance(n_, ast.Name) and n_.id in objmap:
+                    n_.id = objmap[n_.id]
+            mine_ = caller.spec.get("expr_params", {}).get(ast.unparse(tree_))
+            if mine_ is None or mine_[1] != ty_:
+                caller.bad(node, f"call of {spec['func']}: `{ast.unparse(tree_)}` : {ty_} is not a parameter of the caller")
+            codes.append(mine_[0])
         if res["uses_real"]:
             caller.uses_real = True
+        if arr is not None:
+            one = f"(fun x_ => {spec['lean']} " + " ".join(codes) + ")"
+            if res["raises"]:
+                if res.get("nonuniform_raise"):
+                    caller.bad(node, f"array call of {spec['func']}, whose raise depends on the element")
+                return Val(f"(Py.mapUniform {one} {arr.code})", LIST(res["ret_ty"]))
+            return Val(f"(List.map {one} {arr.code})", LIST(res["ret_ty"]))
         elem = spec.get("elementwise", False) and any(v.ty.elem for v in vals)
-        return Val(f"({spec['lean']} " + " ".join(codes) + ")", res["ret_ty"].with_elem(elem))
+        r = Val(f"({spec['lean']} " + " ".join(codes) + ")", res["ret_ty"].with_elem(elem))
+        if res.get("dict_keys"):
+            r.dict_keys = res["dict_keys"]
+        return r
 
     def run(self):
         for spec in self.targets:
@@ -1262,10 +1810,15 @@ class Translator:
                 if node is None:
                     raise Untranslatable(spec["func"], 0, f"function not found in {spec['file']}")
                 node = self.prepare(spec, node)
-                fn = Fn(self, spec, node, spec["file"])
-                text = fn.translate()
+                try:
+                    fn = Fn(self, spec, node, spec["file"])
+                    text = fn.translate()
+                except _NeedOptional:
+                    fn = Fn(self, spec, node, spec["file"], optional=True)
+                    text = fn.translate()
                 self.results[name] = dict(status="ok", text=text, ret_ty=fn.ret_ty, raises=fn.raises,
-                                          uses_real=fn.uses_real, spec=spec, line=node.lineno)
+                                          uses_real=fn.uses_real, spec=spec, line=node.lineno,
+                                          nonuniform_raise=fn.nonuniform_raise, dict_keys=fn.dict_keys)
             except Untranslatable as e:
                 self.results[name] = dict(status="untranslatable", reason=f"line {e.lineno}: {e.reason}", spec=spec)
             except (OSError, SyntaxError) as e:
